@@ -91,13 +91,15 @@ def corr_regex(ctx, tmp):
         if rng.random() < 0.25:
             lines[-1] = lines[-1].rstrip("\n")
         text = "".join(lines)
+        if rng.random() < 0.15:
+            text = "\ufeff" + text      # a file that starts with a UTF-8 byte order mark: the mark belongs to line 1 and stays
         frm, to = rng.choice([("http:", "https:"), ("x=1", "x=2"), ("zzz", "y"), ("plain", "plain")])
         sast = rng.random() < 0.5
         dry = rng.random() < 0.3
         objs, model = mk_results(rng, n)
         use_none = (not sast) and rng.random() < 0.3
         f = tmp / f"t-{uuid.uuid4().hex}.txt"
-        f.write_text(text, newline="")
+        f.write_bytes(text.encode("utf-8"))
         fc = FileContext(tmp, f, [], [], None if use_none else objs)
         pipe = (SastRegexTransformerPipeline if sast else RegexTransformerPipeline)(re.compile(re.escape(frm)), to, "desc")
         cs = pipe.apply(SimpleNamespace(dry_run=dry, directory=tmp), fc, None if use_none else objs)
@@ -166,7 +168,10 @@ def gen_xml(rng):
             elif k < 0.85: kids.append("<![CDATA[" + rng.choice(["raw", "a<b", "x && y", ""]) + "]]>")
             elif k < 0.92: kids.append("<?pi data here?>")
             else: kids.append("\n")
-        sep = rng.choice(["", "\n", "\n  "])
+        sep = rng.choice(["", "", "\n", "\n  "])
+        if kids and rng.random() < 0.25:
+            # a comment / CDATA section / processing instruction directly after the start tag (compact documents)
+            kids.insert(0, rng.choice(["<!-- c -->", "<![CDATA[x<y]]>", "<?pi first?>"]))
         return f"<{n}{attrs()}>{sep}{sep.join(kids)}{sep}</{n}>"
     prolog = rng.choice(["", '<?xml version="1.0"?>\n', '<?xml version="1.0" encoding="utf-8"?>\n'])
     dtd = rng.choice(["", "", "", "<!DOCTYPE cfg>\n", '<!DOCTYPE cfg SYSTEM "x.dtd">\n'])
@@ -269,12 +274,12 @@ def corr_xml(ctx, tmp):
             class T(ElementAttributeXMLTransformer):
                 change_description = "attr"
                 def __init__(self, out, file_context, results=None, **kw):
-                    super().__init__(out, file_context, name_attributes_map=amap, results=results)
+                    super().__init__(out, file_context, name_attributes_map=amap, results=results, **kw)   # whatever else the pipeline passes goes through
         else:
             class T(NewElementXMLTransformer):
                 change_description = "new"
                 def __init__(self, out, file_context, results=None, **kw):
-                    super().__init__(out, file_context, results=results, new_elements=news)
+                    super().__init__(out, file_context, results=results, new_elements=news, **kw)
         fc = FileContext(tmp, f, [], [], objs)
         dry = rng.random() < 0.2
         cs = XMLTransformerPipeline(T).apply(SimpleNamespace(dry_run=dry, directory=tmp), fc, objs)
